@@ -109,7 +109,14 @@ func (e *Enc) call(cur *cursor, v ssa.Value, c *ssa.CallCommon, pos token.Pos) {
 		args = append(args, e.value(fc, c.Value))
 	}
 	for _, a := range c.Args {
-		args = append(args, e.value(fc, a))
+		av := e.value(fc, a)
+		if av.K == vLocal && e.lazy[av.Alloc] {
+			// the address of a lazily allocated local variable is passed: it escapes here
+			e.cur = cur
+			e.materialize(cur, av.Alloc)
+			av = e.resolveLocal(cur.st, av)
+		}
+		args = append(args, av)
 	}
 	if c.IsInvoke() {
 		e.invoke(cur, v, c, args, pos)
@@ -813,6 +820,7 @@ func (e *Enc) inlineCall(cur *cursor, v ssa.Value, callee *ssa.Function, binds [
 		}
 	}
 	rets := e.runFunc(sub, cur.guard, cur.st.clone())
+	e.cur = cur
 	if len(rets) == 0 {
 		cur.dead = true
 		return
